@@ -92,14 +92,19 @@ class BuildError(Exception):
 
 def run_translator():
     rc, out = sh([sys.executable, os.path.join(VERIF, "tools", "gen_tables.py"), "--json"])
-    info = {"status": "ok" if rc == 0 else "shape not recognised", "output": out.strip()[-2000:]}
+    info = {"status": "ok" if rc == 0 else "shape not recognised", "output": out.strip()[-2000:], "per_table": {}}
     for line in out.splitlines():
         if line.startswith("{"):
             try:
                 info["tables"] = json.loads(line)
+                info["per_table"] = info["tables"].get("status", {})
             except ValueError:
                 pass
     return info
+
+
+# which regenerated table a property's theorems are stated against
+TABLE_OF = {"C04": ["tokeniser"], "C05": ["tokeniser"], "C09": ["solver_cmp"]}
 
 
 def gen_coqproject():
@@ -516,6 +521,12 @@ class Check:
         tr = run_translator()
         cov["generated_tables"] = tr.get("tables", tr["status"])
         cov["translator"] = tr["status"]
+        cov["translator_tables"] = tr["per_table"]
+        for tab in TABLE_OF.get(self.prop, []):
+            st = tr["per_table"].get(tab, tr["status"])
+            if st != "ok":
+                # the regenerated part of the model is stale: the theorems no longer speak about the source
+                self.proof_failure = {"stage": "translator (%s)" % tab, "detail": [st, tr["output"][-400:]]}
         clean = self.tier == "thorough" and os.environ.get("VERIF_NO_CLEAN") != "1"
         # a property may have several statement files: Properties/Cxx.v, Properties/Cxx_*.v
         pdir = os.path.join(COQ, "Properties")
@@ -527,14 +538,14 @@ class Check:
                            and os.path.exists(os.path.join(pdir, "pins", f + ".json"))]
         files = [f for f in files if ("Properties/%s.v" % f) in listed] or [self.prop]
         if unlisted_pinned:
-            self.proof_failure = {"stage": "source audit", "detail": ["pinned statement file without its proof file: %s" % f for f in unlisted_pinned]}
+            self.proof_failure = self.proof_failure or {"stage": "source audit", "detail": ["pinned statement file without its proof file: %s" % f for f in unlisted_pinned]}
         targets = ["Properties/%s.vo" % f for f in files]
         target = " ".join(targets)
         cov["checker_cmd"] = "cd coq && coq_makefile -f _CoqProject -o Makefile && make -j16 %s  (coqc 8.16.1, full .vo build%s)" % (
             target, "; from clean; then coqchk -o -silent" if clean else "")
         problems = audit_sources()
         if problems:
-            self.proof_failure = {"stage": "source audit", "detail": problems[:20]}
+            self.proof_failure = self.proof_failure or {"stage": "source audit", "detail": problems[:20]}
         try:
             rc, out = coq_make(targets, clean=clean, timeout=3000)
         except subprocess.TimeoutExpired:
@@ -597,7 +608,7 @@ class Check:
         tb = [
             "Coq 8.16.1 kernel (coqc; vm_compute used in Examples, refutation witnesses and table instantiation; native_compute not used)",
             "axioms reported by Print Assumptions on this run: %s" % (", ".join(sorted(axioms)) or "none (closed under the global context)"),
-            "tools/gen_tables.py (translator for binding powers and keyword table)",
+            "tools/gen_tables.py (translator: binding powers and keyword table of the tokeniser -> Model/Generated.v; comparison table of the solver -> Model/GeneratedCmp.v, read by Model/CmpTable.v)",
             "extraction: ExtrOcamlBasic only (bool, option, unit, list, prod, sumbool, sumor; andb/orb inlined); OCaml 4.13.1; runner/runner.ml",
             "correspondence check: harness (Rust, links /repo by path), generators and diff (Python), sampled",
             "oracles (not verified, passed as a record): regex validity/matching, f64 parse/print, Unicode alnum/numeric classes",
